@@ -157,6 +157,16 @@ func sites() []site {
 	}
 	add("rule.range_query", "", withVals("  range_query {\n    max = %s\n  }\n", durVals), withVals("  range_query {\n    max = \"1d\"\n    severity = %s\n  }\n", sevVals[3:]))
 	add("rule.report", "", withVals("  report {\n    comment = \"x\"\n    severity = %s\n  }\n", sevVals), []string{"  report {\n    comment = \"\"\n    severity = \"bug\"\n  }\n"})
+	// a second, valid block of a repeatable type after the one chosen above: every block must be validated, not
+	// only the last of its type
+	add("rule.second-block", "", []string{
+		"  aggregate \".+\" {\n    strip = [\"instance\"]\n  }\n",
+		"  annotation \"second\" {\n    required = true\n  }\n",
+		"  label \"second\" {\n    required = true\n  }\n",
+		"  reject \"second.*\" {\n    label_values = true\n  }\n",
+		"  name \".+\" {\n  }\n",
+		"  link \"https://second/.+\" {\n  }\n",
+	})
 	return ss
 }
 
